@@ -283,7 +283,7 @@ def encStr (e : Enc) : String :=
 /-- `dec <hex>`: the code's decoder (probed configuration), the strict RFC reader, and why -/
 def decLine (cfg : Cfg) (D : Dict) (bs : Bytes) : String :=
   let impl := decMsg cfg D.lookup bs
-  let strict := decMsg (strictCfg (bs.length + 1)) D.lookup bs
+  let strict := decMsg (strictCfg bs.length) D.lookup bs   -- the reader of `Spec.read` (C03_read_correct)
   let implS := match impl with
     | .ok m => "ok " ++ m.dump ++ " " ++ (match m.enc.err with | none => hexOrDash m.enc.bytes | some _ => "encerr") ++
         " " ++ toString m.length
